@@ -987,7 +987,9 @@ class PathSim:
                 out.append((None, s, sig))
                 continue
             # a substituted local may itself be a boolean expression: evaluate structurally
-            if isinstance(sym, (ast.BoolOp, ast.Compare)) or (isinstance(sym, ast.UnaryOp) and isinstance(sym.op, ast.Not)):
+            if isinstance(sym, ast.Constant):
+                out.append((bool(sym.value), s, None))
+            elif isinstance(sym, (ast.BoolOp, ast.Compare)) or (isinstance(sym, ast.UnaryOp) and isinstance(sym.op, ast.Not)):
                 out.extend(self._cond_sym(sym, s, frame, e))
             else:
                 out.extend(self._decide(sym, e, s, frame))
